@@ -277,7 +277,7 @@ func (vc *VC) checkFrame(fr *Frame, exit *State, con *Contract, env *Env) {
 		if h1 == h0 || heapAll[k] {
 			continue
 		}
-		outside := []string{"(<= 0 a)", "(< a " + entry.alloc + ")"}
+		outside := []string{"(< 0 a)", "(< a " + entry.alloc + ")"}
 		for _, tg := range heapT[k] {
 			outside = append(outside, fmt.Sprintf("(not (and (<= %s a) (< a %s)))", tg.lo, tg.hi))
 		}
@@ -296,7 +296,7 @@ func (vc *VC) checkFrame(fr *Frame, exit *State, con *Contract, env *Env) {
 		if exit.mdom[k] == d0 && exit.mval[k] == v0 {
 			continue
 		}
-		outside := []string{"(<= 0 m)", "(< m " + entry.alloc + ")"}
+		outside := []string{"(< 0 m)", "(< m " + entry.alloc + ")"}
 		for _, tg := range mapT[k] {
 			outside = append(outside, "(not (= m "+tg+"))")
 		}
